@@ -19,11 +19,11 @@ import (
 // scriptedReader behaves like *os.File: (n>0, nil)* then (0, io.EOF), with a
 // few (0, nil) results interleaved; the sizes of the reads are scripted.
 type scriptedReader struct {
-	data  []byte
-	cuts  []int // absolute cut positions (sorted); reads never cross the next cut
-	pos   int
-	zeros map[int]int // position -> number of (0,nil) reads before the next data
-	reads int
+	data    []byte
+	cuts    []int // absolute cut positions (sorted); reads never cross the next cut
+	pos     int
+	zeros   map[int]int // position -> number of (0,nil) reads before the next data
+	reads   int
 	maxRead int
 }
 
